@@ -115,7 +115,7 @@ Proof. vm_compute. repeat split. Qed.
 (* ---- non-vacuity: an operation with associations, two records, a failing invocation, in [op_ok] ---- *)
 Definition w_ok : op :=
   mk_op OCreate t1 (mk_shape CSlice true false) [mk_rec 0 101 1 false; mk_rec 0 102 2 false]
-        (mk_assocs (leaf_ty 12, leaf_ty 13, leaf_ty 14) [mk_rec 0 301 3 false] [mk_rec 0 201 1 false; mk_rec 0 202 2 false] [])
+        (mk_assocs (leaf_ty 12, leaf_ty 13, leaf_ty 14) [mk_rec 0 301 3 false] [mk_rec 0 201 1 false; mk_rec 0 202 2 false] [] (leaf_ty 15) [])
         false TxDefault [9] [0] KField 0 PVMapDb 0 [] no_opts.
 Example c13_ok_instance : op_ok w_ok /\ must_tx w_ok = true
   /\ length (hooks_of (s_tr (run w_ok))) = 12%nat /\ s_err (run w_ok) = [EInj 9] /\ s_tbl (run w_ok) = [].
